@@ -298,6 +298,22 @@ func main() {
 		o.Set("sst.seekFallsThrough", anchor, val, ok, "false")
 	}
 
+	{
+		// concat.fwdOp / concat.revOp: ConcatIterator.Seek picks the first table with
+		// CompareKeys(MaxKey, key) >= 0 (forward), the last with CompareKeys(MinKey, key) <= 0 (reverse)
+		cs := li.Func("ConcatIterator.Seek")
+		cmpFact(o, li, body(cs), "concat.fwdOp", "lsm/iterator.go:ConcatIterator.Seek", "s.tables[i].MaxKey()", "key", "ge")
+		cmpFact(o, li, body(cs), "concat.revOp", "lsm/iterator.go:ConcatIterator.Seek", "s.tables[n-1-i].MinKey()", "key", "le")
+		// and nothing else decides the table: exactly two sort.Search calls, index arithmetic as written
+		if cs != nil {
+			src := li.Src(cs.Body)
+			if strings.Count(src, "sort.Search(") != 2 || !strings.Contains(src, "idx = n - 1 - sort.Search(n, func(i int) bool {") ||
+				!strings.Contains(src, "idx = sort.Search(len(s.tables), func(i int) bool { return utils.CompareKeys(s.tables[i].MaxKey(), key) >= 0 })") {
+				o.ShapeErrors = append(o.ShapeErrors, "extract:concat.fwdOp (lsm/iterator.go:ConcatIterator.Seek): table selection is not the two sort.Search calls the model assumes")
+			}
+		}
+	}
+
 	f := o.Facts
 	lean := fmt.Sprintf(`-- GENERATED by /verif/extract/cmd/iter from the current /repo working tree. Do not edit.
 import NoKVModel.Iter.Model
@@ -310,7 +326,8 @@ def iterCfg : IterCfg :=
     dbRevSeekTs := .%s, dbSkipsDeleted := %s, sstSeekFallsThrough := %s,
     txnLowerOp := .%s, txnUpperOp := .%s, txnSeekLowerOp := .%s, txnSeekUpperOp := .%s,
     txnReadTsOp := .%s, wrapReadTsOp := .%s, txnSinceOp := .%s,
-    dbLowerOp := .%s, dbUpperOp := .%s, dbSeekLowerOp := .%s, dbSeekUpperOp := .%s }
+    dbLowerOp := .%s, dbUpperOp := .%s, dbSeekLowerOp := .%s, dbSeekUpperOp := .%s,
+    concatFwdOp := .%s, concatRevOp := .%s }
 
 end NoKV.Generated.Iter
 `,
@@ -318,6 +335,7 @@ end NoKV.Generated.Iter
 		f["dbit.revSeekTs"], f["dbit.skipsDeleted"], f["sst.seekFallsThrough"],
 		f["txnit.lowerOp"], f["txnit.upperOp"], f["txnit.seekLowerOp"], f["txnit.seekUpperOp"],
 		f["txnit.readTsOp"], f["readts.op"], f["txnit.sinceOp"],
-		f["dbit.lowerOp"], f["dbit.upperOp"], f["dbit.seekLowerOp"], f["dbit.seekUpperOp"])
+		f["dbit.lowerOp"], f["dbit.upperOp"], f["dbit.seekLowerOp"], f["dbit.seekUpperOp"],
+		f["concat.fwdOp"], f["concat.revOp"])
 	o.Write(*jsonOut, *leanOut, lean)
 }
